@@ -222,6 +222,38 @@ def run_case(case, res):
                         want = len(S) if k is None else min(k, len(S))
                         if len(got) != want or len(set(ident(got))) != len(got) or not set(ident(got)) <= set(ident(S)):
                             bad.append(f"find_all(data_id={did!r}, max_results={k}) from {'tree' if start is None else 'node'}: got {got!r}, matches are {S!r}")
+            # ---- lookups by data object, aliases `find` ------------------------------------
+            for x in order[:8]:
+                want = [y for y in order if y.data_id == hash(x.data)]  # default id rule of this tree
+                for nm, fn in (("tree.find_all(data)", lambda: t.find_all(x.data)),):
+                    got = attempt(fn)
+                    res.count("data_queries")
+                    if not isinstance(got, list) or sorted(ident(got)) != sorted(ident(want)):
+                        bad.append(f"{nm} for {x.data!r}: got {got!r}, nodes with that id: {want!r}")
+                for nm, fn in (("tree.find_first(data)", lambda: t.find_first(x.data)), ("tree.find(data)", lambda: t.find(x.data)),
+                               ("tree.find(data_id=)", lambda: t.find(data_id=hash(x.data)))):
+                    got = attempt(fn)
+                    res.count("data_queries")
+                    if (got is None) != (not want) or (got is not None and not any(got is w for w in want)):
+                        bad.append(f"{nm} for {x.data!r}: got {got!r}, nodes with that id: {want!r}")
+                got = attempt(lambda: t.find(node_id=x.node_id))
+                if got is not x:
+                    bad.append(f"tree.find(node_id={x.node_id}) -> {got!r}")
+                for start in order[:4]:
+                    sub = desc(start)
+                    w2 = [y for y in sub if y.data_id == hash(x.data)]
+                    if x.data or isinstance(x.data, str) and x.data:
+                        got = attempt(lambda: start.find_all(x.data))
+                        res.count("data_queries")
+                        if not isinstance(got, list) or ident(got) != ident(w2):
+                            bad.append(f"node.find_all({x.data!r}) below #{next(i for i, o in enumerate(order) if o is start)}: got {got!r}, expected {w2!r}")
+                        for nm in ("find_first", "find"):
+                            got = attempt(lambda: getattr(start, nm)(x.data))
+                            if got is not (w2[0] if w2 else None):
+                                bad.append(f"node.{nm}({x.data!r}): got {got!r}, expected {w2[0] if w2 else None!r}")
+                    got = attempt(lambda: start.find(match=lambda nd: nd is x))
+                    if got is not (x if any(x is y for y in sub) else None):
+                        bad.append(f"node.find(match=<is x>): got {got!r}")
             # ---- index access -----------------------------------------------------
             keys = []
             for x in order:
